@@ -183,12 +183,16 @@ func (w *WaitGroup) Add(delta int) {
 // Done decrements the counter.
 func (w *WaitGroup) Done() { w.Add(-1) }
 
-// Wait waits for the counter to reach zero. Work done by foreign goroutines is
-// awaited by spinning: it is one atomic step from the explorer's point of view.
-// Harness threads never wait for each other through a WaitGroup in the checks.
+// Wait waits for the counter to reach zero. A harness thread is blocked in the
+// scheduler (goroutines started with `go` in rewritten code are harness threads
+// too, see sched.Go); work done by foreign goroutines is awaited by spinning.
 func (w *WaitGroup) Wait() {
 	spins := 0
 	for atomic.LoadInt64(&w.n) != 0 {
+		if sched.Cur() != nil && sched.OthersAlive() {
+			sched.Block(w, "WaitGroup.Wait")
+			continue
+		}
 		runtime.Gosched()
 		spins++
 		if spins%2000 == 0 {
